@@ -150,6 +150,16 @@ def failure_causes(body):
                             cause = ("value", f"test on {sorted(src.names)[:3]} via {sorted(sl)[:3]}")
                     elif r[0] == "call" and ix.callee(r[1]).endswith("no_header_decompress"):
                         cause = ("inflate", "no_header_decompress")
+                    elif r[0] == "call" and ix.callee(r[1]).split("::")[-1] in ("is_err", "is_ok", "is_none", "is_some") and r[1]["args"]:
+                        # `if x.seek(..).is_err() { return None }` is `x.seek(..).ok()?`
+                        src = derive(ix, r[1]["args"][0])
+                        sl = {c_.split("::")[-1] for c_ in src.calls}
+                        if sl & set(IO_CALLS):
+                            cause = ("io", sorted(sl & set(IO_CALLS))[0])
+                        elif sl & {"get", "first", "last", "checked_sub", "checked_add", "checked_mul", "try_into", "try_from", "get_mut"}:
+                            cause = ("option", sorted(sl)[0])
+                        else:
+                            cause = ("value", f"{ix.callee(r[1]).split('::')[-1]} of {sorted(sl)[:3]}")
                     elif "no_header_decompress" in lasts and not (d.ops & {"Lt", "Le", "Gt", "Ge", "Eq", "Ne"}):
                         cause = ("inflate", "no_header_decompress")
                     else:
@@ -308,6 +318,31 @@ def run(ctx):
                 by_iter = "next" in calls and ({"into_iter", "iter"} & calls)
                 ok = 2 in d.params and {"size", "offset"} <= d.names and from_table and bool(by_index or by_iter)
                 order = from_table and bool(by_index or by_iter) and not ({"rev", "next_back", "rposition", "last"} & calls)
+        closure_form = False
+        if not ok:
+            # the per-block body written as a closure driven by the table's forward iterator (for_each / try_for_each /
+            # map): the position is the captured start (entry offset + header size) plus the element's offset
+            for _bi, t in sb.calls():
+                last_ = (t.get("res") or "").split("::")[-1]
+                if last_ not in ("try_for_each", "for_each", "map", "try_fold") or len(t["args"]) < 2:
+                    continue
+                k_ = ix.resolve(t["args"][-1])
+                if not (k_[0] == "rv" and k_[1]["k"] == "agg" and k_[1].get("ak") == "closure"):
+                    continue
+                recv = derive(ix, t["args"][0])
+                rc = {x.split("::")[-1] for x in recv.calls}
+                from_table = bool(tbl) and any(l in recv.locals for l in tbl)
+                forward = bool({"iter", "into_iter"} & rc) and not ({"rev", "skip", "step_by", "filter", "take", "rposition", "last", "next_back"} & rc)
+                cb_ = prog.body(k_[1]["closure"])
+                if cb_ is None:
+                    continue
+                cix_ = index_of(cb_)
+                for _b2, t2 in cb_.calls():
+                    if "sqpack::read_data_block" in (t2.get("res") or "") and len(t2["args"]) == 2:
+                        d2 = derive(cix_, t2["args"][1])
+                        det = f"fields {sorted(d2.names & {'size', 'offset', 'file_size'})}, closure element + captured {sorted(d2.outer_params)}"
+                        if 2 in d2.outer_params and {"size", "offset"} <= d2.names and 2 in d2.params and from_table and forward and "Add" in d2.ops:
+                            ok = order = closure_form = True
         ctx.ob("STD", "block-position", ok, f"standard blocks are read at a position derived from {det}; must be entry offset + file_info.size + the block table element's offset", sb.file, sb.line, sample=True)
         cnt_ok = False
         for _bi, _si, s in sb.stmts():
@@ -316,7 +351,7 @@ def run(ctx):
                 if "num_blocks" in derive(ix, rv["ops"][1]).names:
                     cnt_ok = True
         ctx.ob("STD", "block-count", cnt_ok, "the block table is read for standard_info.num_blocks entries", sb.file, sb.line)
-        app = any((t.get("res") or "").endswith("::append") for _bi, t in sb.calls())
+        app = any((t.get("res") or "").endswith("::append") for b_ in prog.deep_bodies(sb.name) for _bi, t in b_.calls())
         ctx.ob("STD", "table-order", app and order, "blocks are appended in table order (loop counter index or forward iteration over the table)", sb.file, sb.line)
 
     # ---- TEX
@@ -483,7 +518,20 @@ def run(ctx):
     if not rdb:
         ctx.fail_closed("REJECT", "sqpack::read_data_block not found")
     else:
-        causes = failure_causes(rdb)
+        # together with the crate's own helpers it hands the work to (a payload reader, an inflate wrapper): a helper's
+        # failure exits are exits of the block reader
+        group, todo = {}, ["sqpack::read_data_block"]
+        while todo:
+            nm_ = todo.pop()
+            hb_ = prog.raw_body(nm_)
+            if nm_ in group or hb_ is None or len(group) >= 8:
+                continue
+            group[nm_] = hb_
+            for _bi, t_ in hb_.calls():
+                res_ = (t_.get("res") or "").split("::<")[0]
+                if res_.startswith("sqpack::") and res_ in prog.raw_bodies and not res_.endswith(("read_data_block_patch",)) and not prog.raw_bodies[res_].user_derived():
+                    todo.append(res_)
+        causes = [c_ for hb_ in group.values() for c_ in failure_causes(hb_)]
         ctx.floor("REJECT", "failure exits of read_data_block", len(causes), 4)
         bad = [(bi_, c_) for bi_, c_ in causes if c_[0] == "value"]
         ctx.ob("REJECT", "read_data_block|io-only", not bad, f"read_data_block fails on {sorted({c_[0] + ':' + c_[1] for _b, c_ in causes})}" + (f"; value-based rejection: {[c_[1] for _b, c_ in bad]}" if bad else "; no exit rejects a block for its header values"), rdb.file, rdb.line, sample=True)
